@@ -139,7 +139,8 @@ impl Field {
 
     pub fn ty(&self) -> Tokens<Java> {
         match self {
-            Field::Integral { width: 1, .. } => quote!(boolean),
+            // Only 1-bit data fields are booleans: a 1-bit size or count is a number.
+            Field::Integral { width: 1, .. } if !self.is_width() => quote!(boolean),
             Field::Integral { ty, .. } => quote!($ty),
             Field::EnumRef { ty, .. } => quote!($ty),
             Field::StructRef { ty, .. } => quote!($ty),
